@@ -85,6 +85,10 @@ type svcCase struct {
 	Perturb    bool                 `json:"perturb"`
 	CheckResp  bool                 `json:"check_resp"`
 	CheckWorld bool                 `json:"check_world"`
+	// Cancel "mutation" (serial, grpc): the request's context is cancelled the moment its change starts to be
+	// applied (first mutating call on a world), as when a client gives up while its request waits for or
+	// holds the write lock. Whether the change was applied is still what the response has to say.
+	Cancel string `json:"cancel"`
 }
 
 // ---------------------------------------------------------------- naming
@@ -170,14 +174,15 @@ func goid() int64 {
 }
 
 type monitor struct {
-	mu       sync.Mutex
-	lock     *sync.RWMutex
-	clients  map[int64]int                        // goroutine -> client (1-based)
-	kinds    []string                             // request kind per client (index client-1)
-	wrappers map[ingest.MutableWorld]*tracedWorld // inner world object -> wrapper
-	objects  map[string][]ingest.MutableWorld     // world name -> distinct objects handed out, in order of first sight
-	problems []string                             // monitor violations: "key\x00message"
-	lists    [][]string
+	mu         sync.Mutex
+	lock       *sync.RWMutex
+	clients    map[int64]int                        // goroutine -> client (1-based)
+	kinds      []string                             // request kind per client (index client-1)
+	wrappers   map[ingest.MutableWorld]*tracedWorld // inner world object -> wrapper
+	objects    map[string][]ingest.MutableWorld     // world name -> distinct objects handed out, in order of first sight
+	problems   []string                             // monitor violations: "key\x00message"
+	lists      [][]string
+	onMutation func() // called (once set) at the start of every mutating call made by a client
 }
 
 func (m *monitor) client() int {
@@ -246,6 +251,12 @@ func (t *tracedWorld) mutation(op string) {
 		return // set-up code of the harness
 	}
 	kind := m.kinds[c-1]
+	m.mu.Lock()
+	f := m.onMutation
+	m.mu.Unlock()
+	if f != nil {
+		f()
+	}
 	if m.lock.TryLock() {
 		m.lock.Unlock()
 		m.problem("mutation-without-any-lock:"+kind, fmt.Sprintf("client %d (%s): %s on world %s while nobody holds the service lock", c, kind, op, t.name))
@@ -456,7 +467,21 @@ func (s *system) issue(p prepared) respObs {
 		o.IDs = uniqueSorted(o.IDs)
 		return o
 	}
-	resp, err := s.svc.Evaluate(context.Background(), &pb.EvaluateRequestProto{Request: p.proto, Version: b6.ApiVersion, Root: b6.NewProtoFromFeatureID(root)})
+	ctx := context.Background()
+	if s.c.Cancel == "mutation" {
+		var cancel context.CancelFunc
+		ctx, cancel = context.WithCancel(ctx)
+		defer cancel()
+		s.mon.mu.Lock()
+		s.mon.onMutation = cancel
+		s.mon.mu.Unlock()
+		defer func() {
+			s.mon.mu.Lock()
+			s.mon.onMutation = nil
+			s.mon.mu.Unlock()
+		}()
+	}
+	resp, err := s.svc.Evaluate(ctx, &pb.EvaluateRequestProto{Request: p.proto, Version: b6.ApiVersion, Root: b6.NewProtoFromFeatureID(root)})
 	if err != nil {
 		o.Err, o.Msg = true, err.Error()
 		return o
@@ -566,6 +591,13 @@ func (s *system) sameObject() string {
 
 // ---------------------------------------------------------------- serial mode (C26 and the serial reference of C40)
 
+func cancelTag(c *svcCase) string {
+	if c.Cancel != "" {
+		return "/cancelled-at-" + c.Cancel
+	}
+	return ""
+}
+
 func runSerial(c *svcCase) vh.Verdict {
 	preps := make([]prepared, len(c.Reqs))
 	for i, r := range c.Reqs {
@@ -600,11 +632,11 @@ func runSerial(c *svcCase) vh.Verdict {
 		if c.CheckResp && cl-1 < len(c.Resp) {
 			want := c.Resp[cl-1]
 			if want.Err && !got.Err {
-				return vh.Verdict{OK: false, Key: fmt.Sprintf("apply-error-not-reported:%s:%s", c.Path, r.K), Obs: obs,
+				return vh.Verdict{OK: false, Key: fmt.Sprintf("apply-error-not-reported:%s%s:%s", c.Path, cancelTag(c), r.K), Obs: obs,
 					Msg: fmt.Sprintf("%s: %s (%s): applying the change fails in the spec but the client is told no error (ids %v)", c.Path, reqSig(r), expression(r), got.IDs)}
 			}
 			if !want.Err && got.Err {
-				return vh.Verdict{OK: false, Key: fmt.Sprintf("spurious-error:%s:%s", c.Path, reqSig(r)), Obs: obs,
+				return vh.Verdict{OK: false, Key: fmt.Sprintf("spurious-error:%s%s:%s", c.Path, cancelTag(c), reqSig(r)), Obs: obs,
 					Msg: fmt.Sprintf("%s: %s (%s): applying the change succeeds in the spec but the client is told %q", c.Path, reqSig(r), expression(r), got.Msg)}
 			}
 			if !want.Err {
